@@ -4,6 +4,7 @@
 use crate::shapes::*;
 use crate::util::*;
 use flo_curves::bezier::*;
+use flo_curves::*;
 
 const PROP: &str = "C02";
 
@@ -164,13 +165,27 @@ pub fn check_pair(stats: &mut Stats, a: &Cubic, b: &Cubic, class: &str, kinds: &
             }
             // completeness
             for c in &required {
-                if !found(got, c.p) { stats.fail(PROP, &format!("clip.missing_crossing.acc{}{}", acc, suffix), &format!("crossing u={} v={} at {:?} sin={} {}", c.u, c.v, c.p, c.sin, detail(order, got))); }
+                // follow the crossing through a shadow of the recursion: the last event on the sections that contain it.
+                // The theorems (C02.search_complete) say that in exact arithmetic no clip step, no `None` answer and no
+                // box test can lose it: such an event on a real run is reported even if the crossing is found elsewhere
+                let (cause, at) = if order == "(a,b)" { lost_at(a, b, acc, c.u, c.v) } else { lost_at(b, a, acc, c.v, c.u) };
+                stats.count(&format!("followed_crossing.last_event.{}", cause.replace("lost_at_", "").replace("lost_after_", "")));
+                if cause == "lost_at_clip_none" || cause == "lost_at_clip_range" || cause == "lost_at_box_reject" {
+                    stats.fail(PROP, &format!("clip.pruning_invariant_broken.{}.acc{}{}", cause, acc, suffix), &format!("crossing u={} v={} at {:?} sin={} [{}] {}", c.u, c.v, c.p, c.sin, at, detail(order, got)));
+                }
+                if !found(got, c.p) {
+                    stats.count(&format!("missing_crossing.cause.{}", cause));
+                    stats.fail(PROP, &format!("clip.missing_crossing.{}.acc{}{}", cause, acc, suffix), &format!("crossing u={} v={} at {:?} sin={} lost at [{}] {}", c.u, c.v, c.p, c.sin, at, detail(order, got)));
+                }
             }
         }
         // a crossing found in one order is found in the other
         for c in &required {
             let (f1, f2) = (found(&ab, c.p), found(&ba_swapped, c.p));
-            if f1 != f2 { stats.fail(PROP, &format!("clip.order_asymmetry.acc{}{}", acc, suffix), &format!("crossing u={} v={} at {:?} found for (a,b): {} found for (b,a): {} {} returned for (b,a) as (t_a,t_b)={:?}", c.u, c.v, c.p, f1, f2, detail("(a,b)", &ab), ba_swapped)); }
+            if f1 != f2 {
+                let (cause, at) = if !f1 { lost_at(a, b, acc, c.u, c.v) } else { lost_at(b, a, acc, c.v, c.u) };
+                stats.fail(PROP, &format!("clip.order_asymmetry.{}.acc{}{}", cause, acc, suffix), &format!("crossing u={} v={} at {:?} found for (a,b): {} found for (b,a): {} lost at [{}] {} returned for (b,a) as (t_a,t_b)={:?}", c.u, c.v, c.p, f1, f2, at, detail("(a,b)", &ab), ba_swapped));
+            }
         }
         // (not a failure of the statement) asymmetry on crossings outside the completeness guarantee
         for c in oracle.iter().filter(|c| !required.iter().any(|r| r.u == c.u && r.v == c.v)) {
@@ -230,4 +245,328 @@ pub fn search(seed: u64, n: u64) {
         check_pair(&mut stats, &a, &b, class, &kinds);
     }
     stats.print(PROP, "search");
+}
+
+// ------------------------------------------------------------------------------------------------ correspondence
+//
+// The Lean model of `curve_intersects_curve_clip` is the translation of the whole recursion (Gen.CurveClip), run at Float.
+// Two callees are outside the translated subset and are parameters of the model: `overlapping_region` and
+// `intersections_with_linear_section` (both end in the `roots` crate).  Their answers on the section pairs the recursion
+// asks about are recorded here by a SHADOW of the public wrapper and the private inner function that is built from public items only
+// (`CurveSection`, `overlapping_region`, `curve_intersects_ray`, `solve_curve_for_t_along_axis`, and `FatLine` through
+// hook H1) and written into the transcript as tables.  The tie is two-fold: the shadow's result must be bit-equal to the
+// result of the real `curve_intersects_curve_clip` (op `shadow`), and the generated Lean function, given the tables,
+// must reproduce the real result bit for bit (op `clip`) - a section pair the model asks about that the shadow never
+// saw is answered with NaN and therefore shows up as a difference.
+
+use flo_curves::bezier::verif_hooks::FatLine;
+use flo_curves::Coordinate;
+use flo_curves::BoundingBox;
+
+type Sec<'a> = CurveSection<'a, Curve<Coord2>>;
+type Hits = Vec<(f64, f64)>;
+
+/// what the recursion asked its two untranslated callees
+#[derive(Default)]
+pub struct Tables {
+    /// (curve1 t_min, t_max, curve2 t_min, t_max) -> answer of overlapping_region
+    pub ovl: Vec<([f64; 4], Option<((f64, f64), (f64, f64))>)>,
+    /// (which: 0 = curve1 is the linear one, 1 = curve2 is; linear t_min, t_max, curved t_min, t_max) -> answer
+    pub lin: Vec<(u8, [f64; 4], Hits)>,
+    pub iterations: u64,
+    pub splits: u64,
+    pub max_depth: u64,
+    pub clip_none: u64,
+    pub box_reject: u64,
+    pub tiny_entry: u64,
+    pub converged: u64,
+    pub converged_tiny: u64,
+    /// a crossing (u, v) to follow through the recursion, and what happened to the sections that contain it
+    pub target: Option<(f64, f64)>,
+    pub events: Vec<String>,
+}
+
+/// does the pair of sections contain the followed crossing (with a little slack for its own error)
+fn holds(tb: &Tables, a: &Sec, b: &Sec) -> bool {
+    match tb.target { None => false, Some((u, v)) => { let (p, q) = (a.original_curve_t_values(), b.original_curve_t_values()); u >= p.0 - 1e-9 && u <= p.1 + 1e-9 && v >= q.0 - 1e-9 && v <= q.1 + 1e-9 } }
+}
+fn note(tb: &mut Tables, depth: u64, what: &str, a: &Sec, b: &Sec) {
+    let (p, q) = (a.original_curve_t_values(), b.original_curve_t_values());
+    tb.events.push(format!("d{} {} c1=[{:.9},{:.9}] c2=[{:.9},{:.9}]", depth, what, p.0, p.1, q.0, q.1));
+}
+
+fn key(a: &Sec, b: &Sec) -> [f64; 4] { let (p, q) = (a.original_curve_t_values(), b.original_curve_t_values()); [p.0, p.1, q.0, q.1] }
+
+fn sh_hull_length_sq(c: &Sec) -> f64 {
+    if c.is_tiny() { 0.0 } else {
+        let (start, end) = (c.start_point(), c.end_point());
+        let (cp1, cp2) = c.control_points();
+        let (o1, o2, o3) = (cp1 - start, cp2 - cp1, cp2 - end);
+        o1.dot(&o1) + o2.dot(&o2) + o3.dot(&o3)
+    }
+}
+
+/// copy of the private `intersections_with_linear_section` from public pieces (CLOSE_DISTANCE = 0.01, CLOSE_ENOUGH = 0.001*50.0)
+fn sh_linear(linear: &Sec, curved: &Sec, accuracy: f64) -> Hits {
+    const CLOSE_DISTANCE: f64 = 0.01;
+    const CLOSE_ENOUGH: f64 = 0.001 * 50.0;
+    let ray = (linear.start_point(), linear.end_point());
+    let ray_hits = curve_intersects_ray(curved, &ray);
+    let found: Hits = ray_hits.iter().filter_map(|(curved_t, _ray_t, pos)| solve_curve_for_t_along_axis(linear, pos, accuracy.max(CLOSE_DISTANCE)).map(|lt| (lt, *curved_t))).collect();
+    if found.is_empty() && !ray_hits.is_empty() {
+        if linear.point_at_pos(0.0).is_near_to(&linear.point_at_pos(1.0), 0.1) {
+            let mid = linear.point_at_pos(0.5);
+            return ray_hits.iter().filter_map(|(curved_t, _ray_t, pos)| if pos.is_near_to(&mid, CLOSE_ENOUGH) { Some((0.5, *curved_t)) } else { None }).collect();
+        }
+    }
+    found
+}
+
+enum ShClip { None, Some((f64, f64)), Linear }
+
+fn sh_clip(to_clip: &Sec, against: &Sec) -> ShClip {
+    let fat = FatLine::from_curve(against);
+    let clip_t = fat.clip_t(to_clip);
+    if fat.is_flat() { return ShClip::Linear; }
+    let r = match clip_t {
+        Some(c) => {
+            let perp = FatLine::from_curve_perpendicular(against);
+            match perp.clip_t(to_clip) {
+                Some(cp) => { if c.1 - c.0 < cp.1 - cp.0 { ShClip::Some(c) } else { ShClip::Some(cp) } }
+                None => ShClip::None,
+            }
+        }
+        None => ShClip::None,
+    };
+    match r { ShClip::Some((t1, t2)) => if t1 == t2 { ShClip::Some(((t1 - 0.005).max(0.0), (t2 + 0.005).min(1.0))) } else { ShClip::Some((t1, t2)) }, o => o }
+}
+
+fn sh_join(curve1: &Sec, left: Hits, right: Hits, acc2: f64) -> Hits {
+    if left.is_empty() { return right; }
+    if right.is_empty() { return left; }
+    let lt = curve1.section_t_for_original_t(left[left.len() - 1].0);
+    let rt = curve1.section_t_for_original_t(right[0].0);
+    let mut out = left;
+    if (rt - lt).abs() < 0.1 {
+        let off = curve1.point_at_pos(rt) - curve1.point_at_pos(lt);
+        if off.dot(&off) <= acc2 * 2.0 { out.extend(right.into_iter().skip(1)); return out; }
+    }
+    out.extend(right);
+    out
+}
+
+fn sh_inner<'a>(curve1: Sec<'a>, curve2: Sec<'a>, accuracy: f64, acc2: f64, depth: u64, tb: &mut Tables) -> Hits {
+    tb.max_depth = tb.max_depth.max(depth);
+    let inside = holds(tb, &curve1, &curve2);
+    if inside { note(tb, depth, "enter", &curve1, &curve2); }
+    let (mut curve1, mut curve2) = (curve1, curve2);
+    let mut last1 = sh_hull_length_sq(&curve1);
+    let mut last2 = sh_hull_length_sq(&curve2);
+    if last1 == 0.0 || last2 == 0.0 { tb.tiny_entry += 1; if inside { note(tb, depth, "LOST:zero_length_at_entry", &curve1, &curve2); } return vec![]; }
+    loop {
+        tb.iterations += 1;
+        let inside = holds(tb, &curve1, &curve2);
+        let len2 = if last2 > acc2 {
+            match sh_clip(&curve2, &curve1) {
+                ShClip::None => { tb.clip_none += 1; if inside { note(tb, depth, &format!("LOST:clip_none(curve2 against curve1, near_ends={})", curve1.start_point().is_near_to(&curve1.end_point(), 0.0000001)), &curve1, &curve2); } return vec![]; }
+                ShClip::Some(c) => { curve2 = curve2.subsection(c.0, c.1); if inside && !holds(tb, &curve1, &curve2) { note(tb, depth, &format!("LOST:clip_dropped_it(curve2 against curve1, range=({},{}), near_ends={})", c.0, c.1, curve1.start_point().is_near_to(&curve1.end_point(), 0.0000001)), &curve1, &curve2); } sh_hull_length_sq(&curve2) }
+                ShClip::Linear => {
+                    let r = sh_linear(&curve1, &curve2, accuracy);
+                    if inside { note(tb, depth, &format!("EXIT:linear_fallback(curve1 flat) answers={:?}", r.iter().map(|(t1, t2)| (curve1.t_for_t(*t1), curve2.t_for_t(*t2))).collect::<Vec<_>>()), &curve1, &curve2); }
+                    tb.lin.push((0, key(&curve1, &curve2), r.clone()));
+                    return r.into_iter().map(|(t1, t2)| (curve1.t_for_t(t1), curve2.t_for_t(t2))).collect();
+                }
+            }
+        } else { last2 };
+        let inside = holds(tb, &curve1, &curve2);
+        let len1 = if last1 > acc2 {
+            match sh_clip(&curve1, &curve2) {
+                ShClip::None => { tb.clip_none += 1; if inside { note(tb, depth, &format!("LOST:clip_none(curve1 against curve2, near_ends={})", curve2.start_point().is_near_to(&curve2.end_point(), 0.0000001)), &curve1, &curve2); } return vec![]; }
+                ShClip::Some(c) => { curve1 = curve1.subsection(c.0, c.1); if inside && !holds(tb, &curve1, &curve2) { note(tb, depth, &format!("LOST:clip_dropped_it(curve1 against curve2, range=({},{}), near_ends={})", c.0, c.1, curve2.start_point().is_near_to(&curve2.end_point(), 0.0000001)), &curve1, &curve2); } sh_hull_length_sq(&curve1) }
+                ShClip::Linear => {
+                    let r = sh_linear(&curve2, &curve1, accuracy);
+                    if inside { note(tb, depth, &format!("EXIT:linear_fallback(curve2 flat) answers={:?}", r.iter().map(|(t2, t1)| (curve1.t_for_t(*t1), curve2.t_for_t(*t2))).collect::<Vec<_>>()), &curve1, &curve2); }
+                    tb.lin.push((1, key(&curve2, &curve1), r.clone()));
+                    return r.into_iter().map(|(t2, t1)| (curve1.t_for_t(t1), curve2.t_for_t(t2))).collect();
+                }
+            }
+        } else { last1 };
+        if len1 <= acc2 && len2 <= acc2 {
+            if curve1.fast_bounding_box::<Bounds<_>>().overlaps(&curve2.fast_bounding_box::<Bounds<_>>()) {
+                let ((a, b), (c, d)) = (curve1.original_curve_t_values(), curve2.original_curve_t_values());
+                tb.converged += 1;
+                if curve1.is_tiny() || curve2.is_tiny() { tb.converged_tiny += 1; }
+                if holds(tb, &curve1, &curve2) { note(tb, depth, "EXIT:converged", &curve1, &curve2); }
+                return vec![((a + b) * 0.5, (c + d) * 0.5)];
+            } else { tb.box_reject += 1; if holds(tb, &curve1, &curve2) { note(tb, depth, "LOST:box_reject", &curve1, &curve2); } return vec![]; }
+        }
+        if last1 * 0.8 <= len1 && last2 * 0.8 <= len2 {
+            tb.splits += 1;
+            if holds(tb, &curve1, &curve2) { note(tb, depth, if len1 / last1 > len2 / last2 { "split curve1" } else { "split curve2" }, &curve1, &curve2); }
+            if len1 / last1 > len2 / last2 {
+                let (l, r) = (curve1.subsection(0.0, 0.5), curve1.subsection(0.5, 1.0));
+                let l = sh_inner(l, curve2.clone(), accuracy, acc2, depth + 1, tb);
+                let r = sh_inner(r, curve2, accuracy, acc2, depth + 1, tb);
+                return sh_join(&curve1, l, r, acc2);
+            } else {
+                let (l, r) = (curve2.subsection(0.0, 0.5), curve2.subsection(0.5, 1.0));
+                let l = sh_inner(curve1.clone(), l, accuracy, acc2, depth + 1, tb);
+                let r = sh_inner(curve1.clone(), r, accuracy, acc2, depth + 1, tb);
+                return sh_join(&curve1, l, r, acc2);
+            }
+        }
+        last1 = len1;
+        last2 = len2;
+    }
+}
+
+/// follows the crossing `(u, v)` through the recursion: the list of events on the sections that contain it
+pub fn why(a: &Cubic, b: &Cubic, accuracy: f64, u: f64, v: f64) -> Vec<String> {
+    let mut tb = Tables::default();
+    tb.target = Some((u, v));
+    let (ca, cb) = (to_curve(a), to_curve(b));
+    let _ = sh_top(&ca, &cb, accuracy, &mut tb);
+    tb.events
+}
+
+/// the named step of the recursion at which the crossing `(u, v)` of `(a, b)` disappears (the last LOST/EXIT event on the
+/// sections that contain it), as a key fragment and in full
+pub fn lost_at(a: &Cubic, b: &Cubic, accuracy: f64, u: f64, v: f64) -> (String, String) {
+    let trace = why(a, b, accuracy, u, v);
+    let ev = trace.iter().rev().find(|e| e.contains("LOST") || e.contains("EXIT")).cloned().unwrap_or_else(|| "? no event".into());
+    let word = ev.split_whitespace().nth(1).unwrap_or("?").split('(').next().unwrap_or("?").to_string();
+    let cause = match word.as_str() {
+        "LOST?overlap_shortcut" => "lost_at_overlap_shortcut",
+        "LOST:zero_length_at_entry" => "lost_at_zero_length_section",
+        "LOST:clip_none" => "lost_at_clip_none",
+        "LOST:clip_dropped_it" => "lost_at_clip_range",
+        "LOST:box_reject" => "lost_at_box_reject",
+        "EXIT:linear_fallback" => "lost_at_linear_fallback",
+        "EXIT:converged" => "lost_after_convergence",
+        _ => "lost_at_unknown_step",
+    };
+    (cause.to_string(), ev)
+}
+
+/// copy of the public wrapper: the overlap shortcut once, on the whole curves, then the inner function
+fn sh_top(a: &Curve<Coord2>, b: &Curve<Coord2>, accuracy: f64, tb: &mut Tables) -> Hits {
+    let (curve1, curve2) = (a.section(0.0, 1.0), b.section(0.0, 1.0));
+    let ov = overlapping_region(&curve1, &curve2);
+    tb.ovl.push((key(&curve1, &curve2), ov));
+    if let Some(((a1, a2), (b1, b2))) = ov {
+        if holds(tb, &curve1, &curve2) { note(tb, 0, "LOST?overlap_shortcut", &curve1, &curve2); }
+        let (a1, a2, b1, b2) = (curve1.t_for_t(a1), curve1.t_for_t(a2), curve2.t_for_t(b1), curve2.t_for_t(b2));
+        return if a1 == a2 || b1 == b2 { vec![(a1, b1)] } else { vec![(a1, b1), (a2, b2)] };
+    }
+    sh_inner(curve1, curve2, accuracy, accuracy * accuracy, 0, tb)
+}
+
+pub fn shadow(a: &Curve<Coord2>, b: &Curve<Coord2>, accuracy: f64) -> (Hits, Tables) {
+    let mut tb = Tables::default();
+    let r = sh_top(a, b, accuracy, &mut tb);
+    (r, tb)
+}
+
+fn hits_str(h: &[(f64, f64)]) -> String { let mut s = format!("#{}", h.len()); for (x, y) in h { s += &format!(" {} {}", hx(*x), hx(*y)); } s }
+
+/// the extra input classes of the correspondence run: overlapping pieces of one curve (overlap shortcut), straight lines
+/// (linear fall-back), a curve against itself
+fn gen_corr_pair(rng: &mut Rng, stats: &mut Stats) -> (Cubic, Cubic, String) {
+    let kind = KINDS[rng.i(4) as usize];
+    match rng.i(12) {
+        0 => { let a = gen_cubic(rng, kind); let (t0, t1) = (rng.r(0.0, 0.5), rng.r(0.5, 1.0)); let c = to_curve(&a);
+               let piece: Curve<Coord2> = Curve::from_curve(&c.section(t0, t1)); (a, from_curve(&piece), "overlapping_piece".into()) }
+        1 => { let a = gen_cubic(rng, kind); let c = to_curve(&a);
+               let p1: Curve<Coord2> = Curve::from_curve(&c.section(0.0, rng.r(0.4, 0.8))); let p2: Curve<Coord2> = Curve::from_curve(&c.section(rng.r(0.2, 0.6), 1.0));
+               (from_curve(&p1), from_curve(&p2), "overlapping_pieces_of_one_curve".into()) }
+        2 => { let (p, q) = (rp(rng), rp(rng)); let d = q - p; let line = [p, p + d * (1.0 / 3.0), p + d * (2.0 / 3.0), q];
+               let b = gen_cubic(rng, kind); if rng.b() { (line, b, "straight_line".into()) } else { (b, line, "straight_line".into()) } }
+        3 => { let a = gen_cubic(rng, kind); (a, a, "same_curve".into()) }
+        4 => { let snap = |c: Cubic| -> Cubic { let f = |p: Coord2| Coord2((p.0 / 12.5).round() * 12.5, (p.1 / 12.5).round() * 12.5); [f(c[0]), f(c[1]), f(c[2]), f(c[3])] };
+               (snap(gen_cubic(rng, "general")), snap(gen_cubic(rng, "general")), "grid".into()) }
+        _ => { let (a, b, class, kinds) = gen_pair_of_curves(rng, stats); (a, b, if class.is_empty() { format!("generic.{}", kinds) } else { class.to_string() }) }
+    }
+}
+
+pub fn corr(seed: u64, n: u64) {
+    let mut rng = Rng(seed ^ 0xC02);
+    let mut stats = Stats::new();
+    for it in 0..n {
+        let (a, b, class) = gen_corr_pair(&mut rng, &mut stats);
+        let acc = if it % 2 == 0 { 0.01 } else { 0.001 };
+        let (a, b) = if it % 4 >= 2 { (b, a) } else { (a, b) };
+        let (ca, cb) = (to_curve(&a), to_curve(&b));
+        let real: Hits = curve_intersects_curve_clip(&ca, &cb, acc).into_iter().collect();
+        let (sh, tb) = shadow(&ca, &cb, acc);
+        stats.count(&format!("class.{}", class.split('.').next().unwrap_or("")));
+        stats.count(&format!("hits.{}", real.len().min(4)));
+        stats.add("loop_iterations", tb.iterations);
+        stats.add("splits", tb.splits);
+        stats.add("exit.clip_none", tb.clip_none);
+        stats.add("exit.box_reject", tb.box_reject);
+        stats.add("exit.zero_length_at_entry", tb.tiny_entry);
+        stats.add("exit.converged", tb.converged);
+        stats.add("exit.converged_with_a_tiny_section", tb.converged_tiny);
+        if tb.converged > 0 { stats.add(&format!("exit.converged.in_class.{}", class.split('.').next().unwrap_or("")), tb.converged); }
+        stats.add("exit.overlap_shortcut", tb.ovl.iter().filter(|(_, r)| r.is_some()).count() as u64);
+        stats.add("exit.linear_fallback", tb.lin.len() as u64);
+        stats.count(&format!("max_depth.{}", tb.max_depth.min(12)));
+        let hc = |c: &Cubic| c.iter().map(|p| format!("{} {}", hx(p.0), hx(p.1))).collect::<Vec<_>>().join(" ");
+        let mut line = format!("C02 clip R {} {} {} #{}", hc(&a), hc(&b), hx(acc), tb.ovl.len());
+        for (k, r) in &tb.ovl {
+            line += &format!(" {}", hxs(k));
+            match r { None => line += " #0", Some(((p, q), (u, v))) => line += &format!(" #1 {}", hxs(&[*p, *q, *u, *v])) }
+        }
+        line += &format!(" #{}", tb.lin.len());
+        for (w, k, r) in &tb.lin { line += &format!(" #{} {} {}", w, hxs(k), hits_str(r)); }
+        line += &format!(" | {}", hits_str(&real));
+        stats.case(&line, tb.iterations > 1);
+        println!("{}", line);
+        println!("C02 shadow R {} | {}", hits_str(&sh), hits_str(&real));
+    }
+    stats.print(PROP, "corr");
+}
+
+/// (diagnostic, not part of a check: `fvharness probe C02 <seed> <n>`) how often does the loop end through its own convergence
+/// test for curves that fill the box, have cusps or tight bends, and how far apart are the two reported points then
+pub fn probe(seed: u64, n: u64) {
+    let mut rng = Rng(seed ^ 0xBEEF);
+    let (mut conv, mut conv_tiny, mut worst, mut worst_tiny) = (0u64, 0u64, 0.0f64, 0.0f64);
+    let mut worst_case = String::new();
+    for it in 0..n {
+        let corner = |rng: &mut Rng| Coord2(if rng.b() { rng.r(0.0, 8.0) } else { rng.r(92.0, 100.0) }, if rng.b() { rng.r(0.0, 8.0) } else { rng.r(92.0, 100.0) });
+        let (a, b): (Cubic, Cubic) = if it % 3 == 0 {
+            ([corner(&mut rng), corner(&mut rng), corner(&mut rng), corner(&mut rng)], [corner(&mut rng), corner(&mut rng), corner(&mut rng), corner(&mut rng)])
+        } else {
+            // a cubic with a cusp (or a very tight bend) and a curve through the neighbourhood of the cusp
+            let s = rng.r(20.0, 100.0); let e = if it % 3 == 1 { 0.0 } else { rng.r(-2.0, 2.0) };
+            let a: Cubic = [Coord2(0.0, 0.0), Coord2(s, s), Coord2(e, s), Coord2(s + e, 0.0)];
+            let tip = bez(&a, 0.5);
+            let q = tip + Coord2(rng.r(-1.0, 1.0), rng.r(-1.0, 1.0)) * rng.r(0.0, 0.3);
+            let d = Coord2(rng.r(-1.0, 1.0), rng.r(-1.0, 1.0)) * 30.0; let n = Coord2(-d.1, d.0) * rng.r(-0.5, 0.5);
+            let b: Cubic = if it % 2 == 0 { [q - d, q - d * 0.3 + n, q + d * 0.3 + n, q + d] } else {
+                // a second cusp, rotated, with its tip near the first one
+                let (s2, th) = (rng.r(20.0, 100.0), rng.r(0.0, 6.283));
+                let rot = |p: Coord2| Coord2(p.0 * th.cos() - p.1 * th.sin(), p.0 * th.sin() + p.1 * th.cos());
+                let c: Cubic = [Coord2(0.0, 0.0), Coord2(s2, s2), Coord2(0.0, s2), Coord2(s2, 0.0)];
+                let tip2 = rot(bez(&c, 0.5));
+                let sh = q - tip2;
+                [rot(c[0]) + sh, rot(c[1]) + sh, rot(c[2]) + sh, rot(c[3]) + sh]
+            };
+            (a, b)
+        };
+        let acc = if it % 2 == 0 { 0.01 } else { 0.001 };
+        let (ca, cb) = (to_curve(&a), to_curve(&b));
+        let (hits, tb) = shadow(&ca, &cb, acc);
+        if tb.converged == 0 { continue; }
+        conv += tb.converged; conv_tiny += tb.converged_tiny;
+        for (t1, t2) in &hits {
+            let d = dist(bez(&a, *t1), bez(&b, *t2));
+            if tb.lin.is_empty() && tb.ovl.iter().all(|(_, r)| r.is_none()) {
+                if d > worst { worst = d; worst_case = format!("a={:?} b={:?} acc={} hits={:?} d={}", a, b, acc, hits, d); }
+                if tb.converged_tiny > 0 && d > worst_tiny { worst_tiny = d; }
+            }
+        }
+    }
+    println!("converged exits {} (with a tiny section {}), worst distance of a reported pair {} (tiny {}) {}", conv, conv_tiny, worst, worst_tiny, worst_case);
 }
